@@ -25,7 +25,9 @@ import (
 	"io/ioutil"
 	"os"
 	"path/filepath"
+	"runtime"
 	"runtime/debug"
+	"runtime/pprof"
 	"strconv"
 	"strings"
 	"time"
@@ -567,9 +569,26 @@ func worker(args []string) {
 	run := lib.NewChildRun(prop)
 	base := lib.Scratch(prop)
 	defer os.RemoveAll(base)
-	total := int64(lib.Pick(48, 1600))
-	for c := int64(i); c < total; c += int64(wn) {
+	// 16 workers share the machine: without a limit the snapshots of a long case let a worker's
+	// heap grow to several GiB before the collector returns anything
+	debug.SetMemoryLimit(2 << 30)
+	// args[3], args[4]: this process handles cases first+i, first+i+wn, ... below first+count. Every
+	// replay leaves two parked goroutines with a 40 KiB buffer behind (go-autofile's tick routines
+	// do not end when their tickers are stopped), thousands per case: processes are kept short-lived.
+	first, _ := strconv.ParseInt(args[3], 10, 64)
+	count, _ := strconv.ParseInt(args[4], 10, 64)
+	for c := first + int64(i); c < first+count; c += int64(wn) {
 		runCase(run, c, base)
+		debug.FreeOSMemory()
+		if os.Getenv("VERIF_MEMLOG") != "" {
+			var ms runtime.MemStats
+			runtime.ReadMemStats(&ms)
+			fmt.Fprintf(os.Stderr, "MEMLOG case %d heap_inuse=%dMB heap_objects=%d goroutines=%d\n", c, ms.HeapInuse>>20, ms.HeapObjects, runtime.NumGoroutine())
+			if f, err := os.Create(os.Getenv("VERIF_MEMLOG")); err == nil {
+				pprof.Lookup("goroutine").WriteTo(f, 1)
+				f.Close()
+			}
+		}
 	}
 	run.MarkComplete()
 	if err := run.ExportTo(out); err != nil {
@@ -586,7 +605,15 @@ func main() {
 	run := lib.NewRun(prop, "fault_enumeration")
 	run.SetRule("seeded executions of 3-5 real ConsensusStates (optionally one Byzantine validator) under adversarial schedules with premature timeouts, partitions, WAL rotation inside heights and real crash/restart of nodes; node X is additionally 'crashed' after its processed inputs (quick: sampled 25-100%; thorough: every input): disk artefacts copied, fresh node started through the real replay path, RoundState digest compared; for selected records the WAL head is cut at every byte offset (sampled above 48/400 bytes) of its last record. Non-trivial = distinct live RoundState digest that a replay reproduced.")
 	run.Assume("crash = process death after a completely processed input (torn writes are covered by the byte cuts of the WAL head only)", "the digest excludes the internal queue: replay legitimately re-queues identical re-signed own votes; contradictions are caught by the emission ledger instead", "peer majority claims (VoteSetMaj23) are reactor state, not WAL-logged inputs: not generated here", "cs_wal_light=false (default)")
-	run.RunWorkers(16, time.Duration(lib.Pick(20, 60))*time.Minute, nil, nil)
+	total := int64(lib.Pick(48, 480))
+	per := int64(lib.Pick(48, 32)) // cases per round of 16 worker processes (thorough: two big cases each)
+	for first := int64(0); first < total; first += per {
+		n := per
+		if first+n > total {
+			n = total - first
+		}
+		run.RunWorkers(16, time.Duration(lib.Pick(20, 30))*time.Minute, []string{strconv.FormatInt(first, 10), strconv.FormatInt(n, 10)}, nil)
+	}
 	run.Require("replays", 1000)
 	run.Require("judged_by_full_digest", 300)
 	run.Require("replays_that_restored_a_lock", 20)
